@@ -481,8 +481,11 @@ def _compute(fn, args):
             return Lenient((r,)), tags
         return r, tags
     if fn in ('FACT', 'FACTDOUBLE'):
+        # "If number is not an integer, it is truncated" (both functions)
         n = int(a)
-        assert n == a, 'integral arguments only'
+        if n != a:
+            assert a > 0, 'non-integral arguments: positive ones only'
+            tags.add('arg:truncated')
         if n < 0:
             if fn == 'FACTDOUBLE' and n == -1:
                 tags.add('domain:factdouble-minus-one')   # (-1)!! = 1
